@@ -152,6 +152,11 @@ def make_machine(shard, budget_s=None):
     pool_n = len(shard.pool)
     deadline = [time.time() + budget_s if budget_s else None]
 
+    # blocks whose analysis fails cost seconds per step (a RecursionError 1000 frames deep, three times): they are drawn
+    # six times less often than the others
+    slow = [k for k, b in enumerate(shard.pool) if any(n == "PC" for n, _ in b)]
+    index_space = [k for k in range(pool_n) for _ in range(1 if k in slow else 6)]
+
     def out_of_budget():
         # exploration budget of the shard (a pool with one slow block must not keep the whole run waiting); what was not
         # explored is counted, never judged
@@ -195,16 +200,18 @@ def make_machine(shard, budget_s=None):
                     {"type": "history", "blocks": blocks, "argv": OPTSETS[self.oi], "how": how}))
             self.hist.append(i)
 
-        @rule(i=st.integers(0, pool_n - 1))
+        @rule(i=st.integers(0, len(index_space) - 1))
         def process(self, i):
+            i = index_space[i]
             if out_of_budget():
                 return
             items = asm.instrs_to_items(shard.pool[i])
             r = hermetic.local(process_block, items, OPTSETS[self.oi], reset=False, timeout=30)
             self._judge(i, norm(r.value) if r.kind == "ok" else {"harness": r.kind}, "isolated")
 
-        @rule(idx=st.lists(st.integers(0, pool_n - 1), min_size=2, max_size=5))
+        @rule(idx=st.lists(st.integers(0, len(index_space) - 1), min_size=2, max_size=5))
         def process_contract(self, idx):
+            idx = [index_space[k] for k in idx]
             """several blocks in one go (as a contract would): each must still equal its own fresh result"""
             for i in idx:
                 if out_of_budget():
